@@ -362,18 +362,17 @@ theorem client_data_ok {m m' : Send} {id len : Nat} {es : Bool} (h : m.client (.
 theorem peer_settings_invalid (m : Send) {vals : List (Nat × Nat)} (h : vals.any invalidSetting = true) :
     m.peer (.settings vals) = m := by
   simp only [Send.peer]
-  have : (vals.any fun p => p.1 == sInitialWindowSize && decide (p.2 > 2147483647)) = true := h
+  have : (vals.any fun p => (p.1 == sInitialWindowSize && decide (p.2 > 2147483647)) || (p.1 == sMaxFrameSize && (decide (p.2 < 16384) || decide (p.2 > 16777215)))) = true := h
   rw [this]; rfl
 
 theorem peer_settings_valid (m : Send) {vals : List (Nat × Nat)} (h : vals.any invalidSetting = false) :
     m.peer (.settings vals) = { m with pending := m.pending ++ [vals] } := by
   simp only [Send.peer]
-  have : (vals.any fun p => p.1 == sInitialWindowSize && decide (p.2 > 2147483647)) = false := h
+  have : (vals.any fun p => (p.1 == sInitialWindowSize && decide (p.2 > 2147483647)) || (p.1 == sMaxFrameSize && (decide (p.2 < 16384) || decide (p.2 > 16777215)))) = false := h
   rw [this]; rfl
 
 /-- the two ways `processSettings` can go -/
-theorem peerSettings_shape {st : State} {m : Send} (h : SInv (view st) m) (vals : List (Nat × Nat))
-    (hv : ∀ p ∈ vals, p.1 = sMaxFrameSize → 16384 ≤ p.2) :
+theorem peerSettings_shape {st : State} {m : Send} (h : SInv (view st) m) (vals : List (Nat × Nat)) :
     (peerSettings st vals = ({ st with closed := true }, []) ∧ vals.any invalidSetting = true) ∨
     (∃ st1, peerSettings st vals = (st1, [Frame.settingsAck]) ∧ st1.closed = st.closed ∧
       vals.any invalidSetting = false ∧ SInv (view st1) (vals.foldl ackSetting m)) := by
@@ -384,7 +383,7 @@ theorem peerSettings_shape {st : State} {m : Send} (h : SInv (view st) m) (vals 
   · rename_i hnone
     exact Or.inl ⟨rfl, applySettings_none hnone⟩
   · rename_i st1 seenMax hsome
-    obtain ⟨b1, b2, b3, b4⟩ := sim_applySettings hv h0 cn0 hsome
+    obtain ⟨b1, b2, b3, b4⟩ := sim_applySettings h0 cn0 hsome
     have hcl := (sames_applySettings hsome).closed
     right
     refine ⟨_, rfl, ?_, b1, ?_⟩
@@ -572,8 +571,7 @@ theorem tolerant_run_append : ∀ (a b : List Event) (t x : Tolerant), Tolerant.
 theorem bool_false_of_not_true {b : Bool} (h : ¬ b = true) : b = false := by
   cases b <;> simp at h ⊢
 
-theorem race_write {st : State} {t : Tolerant} (h : RaceInv st t) (id : Nat) (vals : List (Nat × Nat))
-    (hv : ∀ p ∈ vals, p.1 = sMaxFrameSize → 16384 ≤ p.2) :
+theorem race_write {st : State} {t : Tolerant} (h : RaceInv st t) (id : Nat) (vals : List (Nat × Nat)) :
     ∃ t', Tolerant.run t (rstep st (.writeRaced id vals)).2 = .ok t' ∧
       RaceInv (rstep st (.writeRaced id vals)).1 t' := by
   simp only [rstep]
@@ -596,7 +594,7 @@ theorem race_write {st : State} {t : Tolerant} (h : RaceInv st t) (id : Nat) (va
             (send_run_single_c hm1)
           exact ⟨t', h3, ⟨by rw [h4]; exact hi1.pending, by rw [h4]; exact hi1.hdr, fun _ => by rw [h4]; exact hi1⟩⟩
         · rw [if_neg hc1]
-          rcases peerSettings_shape hi1 vals hv with ⟨hps, hinv⟩ | ⟨st2, hps, hcl, hval, hi2⟩
+          rcases peerSettings_shape hi1 vals with ⟨hps, hinv⟩ | ⟨st2, hps, hcl, hval, hi2⟩
           · -- an invalid SETTINGS frame: the connection is torn down, the frame never leaves
             simp only [settingsEvents, hps, List.map_nil, if_true, List.append_nil]
             refine ⟨{ t with m := t.m.peer (.settings vals) }, rfl, ?_⟩
@@ -708,7 +706,7 @@ theorem theaders_run {t : Tolerant} (hdr : t.m.hdrOpen = none) (id len : Nat) (e
     simp only [firstHdrMon, openedMon]
 
 theorem race_open {st : State} {t : Tolerant} (h : RaceInv st t) (r : Req) (vals : List (Nat × Nat))
-    (hlen : 0 < r.hdrLen) (hv : ∀ p ∈ vals, p.1 = sMaxFrameSize → 16384 ≤ p.2) :
+    (hlen : 0 < r.hdrLen) :
     ∃ t', Tolerant.run t (rstep st (.openRaced r vals)).2 = .ok t' ∧
       RaceInv (rstep st (.openRaced r vals)).1 t' := by
   simp only [rstep]
@@ -724,7 +722,7 @@ theorem race_open {st : State} {t : Tolerant} (h : RaceInv st t) (r : Req) (vals
         simp only [Bool.or_eq_true, Bool.not_eq_true', decide_eq_false_iff_not, not_or, Bool.not_eq_false,
           Decidable.not_not] at hadm
         exact hadm.2
-      rcases peerSettings_shape hs vals hv with ⟨hps, hinv⟩ | ⟨st1, hps, hcl, hval, hi1⟩
+      rcases peerSettings_shape hs vals with ⟨hps, hinv⟩ | ⟨st1, hps, hcl, hval, hi1⟩
       · simp only [settingsEvents, hps, List.map_nil, if_true]
         refine ⟨{ t with m := t.m.peer (.settings vals) }, rfl, ?_⟩
         simp only [peer_settings_invalid _ hinv]
@@ -765,8 +763,8 @@ theorem race_step {st : State} {t : Tolerant} (h : RaceInv st t) (op : ROp) (hok
     ∃ t', Tolerant.run t (rstep st op).2 = .ok t' ∧ RaceInv (rstep st op).1 t' := by
   cases op with
   | plain op => exact race_plain h op hok
-  | writeRaced id vals => exact race_write h id vals hok
-  | openRaced r vals => exact race_open h r vals hok.1 hok.2
+  | writeRaced id vals => exact race_write h id vals
+  | openRaced r vals => exact race_open h r vals hok
 
 theorem race_runFrom (ops : List ROp) (hok : ∀ op ∈ ops, op.ok) :
     ∀ {st : State} {t t0 : Tolerant} {hist : List Event},
